@@ -71,7 +71,14 @@ func VerifC04_ExplicitSyncFault() {
 	N := int64(n)
 	seg := c01int("segDepthLimit", -1, N+1)
 	depth := c01int("adsDepthLimit", -1, N+1)
-	v := newVSub(chain, depth, 0, seg, true)
+	// the segment size is configured on the subscriber or given with the call
+	var opts []SyncOption
+	subSeg := seg
+	if seg > 0 && verif_Bool("segmentSizeGivenPerCall") {
+		subSeg = -1
+		opts = append(opts, ScopedSegmentDepthLimit(seg))
+	}
+	v := newVSub(chain, depth, 0, subSeg, true)
 	latestPos := verif_Choose("latestSyncPos", 0, n) // n = none
 	latestBefore := cid.Undef
 	if latestPos < n {
@@ -82,7 +89,7 @@ func VerifC04_ExplicitSyncFault() {
 	kind := verif_Choose("faultKind", c04HeadErr, c04Cancelled)
 	ctx := c04inject(v, kind, n)
 
-	got, err := v.s.SyncAdChain(ctx, v.peer)
+	got, err := v.s.SyncAdChain(ctx, v.peer, opts...)
 	verif_Reach("first call returned")
 	events := v.drain()
 	limit := depth
@@ -90,6 +97,11 @@ func VerifC04_ExplicitSyncFault() {
 		limit = 0
 	}
 	want := c01want(chain, 0, latestBefore, limit)
+	// (documented: the hook's failure signal works in segmented syncs, and a sync whose
+	// depth limit does not exceed the segment size is not segmented)
+	if kind == c04HookFail && seg > 0 && (limit <= 0 || limit > seg) && v.failHookAt <= len(want) {
+		verif_Assert(err != nil, "a failure the hook signals in a segmented sync fails the sync, wherever the segment size was configured")
+	}
 	if err != nil {
 		verif_Reach("failed")
 		verif_Assert(got == cid.Undef, "a failed sync returns no CID")
@@ -106,7 +118,7 @@ func VerifC04_ExplicitSyncFault() {
 	}
 	// convergence: the publisher answers correctly again
 	c04clear(v)
-	got2, err2 := v.s.SyncAdChain(context.Background(), v.peer)
+	got2, err2 := v.s.SyncAdChain(context.Background(), v.peer, opts...)
 	verif_Reach("second call returned")
 	events2 := v.drain()
 	verif_Assert(err2 == nil && got2 == chain[0], "once the publisher answers correctly the same sync succeeds")
@@ -185,4 +197,43 @@ func VerifC04_AnnouncedSyncFault() {
 	if len(events3) == 1 && kind != c04NoSyncer {
 		verif_Assert(events3[0].Err == nil && v.latest() == chain[0], "once the fault is gone the re-announced head is synced")
 	}
+}
+
+// C04 / C14 through the real notification distributor: an announce-triggered
+// sync of head X fails (one error notification reaches the listener), X is
+// announced again and fails again or — the publisher having recovered — succeeds:
+// every one of these syncs is notified to the listener, although they all name
+// the same publisher and the same CID.
+func VerifC04_RepeatedOutcomesForOneHeadAreAllNotified() {
+	n := verif_Choose("chainLen", 1, 2)
+	chain := c01chain(n)
+	v := newVSub(chain, -1, 0, 0, true)
+	go v.s.distributeEvents()
+	lis, _ := v.s.OnSyncFinished()
+	rcv, rerr := announce.NewReceiver(nil, "")
+	verif_Assume(rerr == nil)
+	v.s.receiver = rcv
+	hnd := v.s.getOrCreateHandler(v.peer.ID)
+	failures := verif_Choose("failedAttempts", 1, 2)
+	for i := 0; i < failures; i++ {
+		v.sy.failSync, v.sy.failAt, v.sy.syncs = 1, 1, 0
+		verif_Assume(rcv.Direct(context.Background(), chain[0], peer.AddrInfo{ID: v.peer.ID}) == nil)
+		amsg, nerr := rcv.Next(context.Background())
+		verif_Assert(nerr == nil && amsg.Cid == chain[0], "the head can be announced (again) and is delivered")
+		hnd.pendingMsg.Store(&amsg)
+		hnd.asyncSyncAdChain(context.Background())
+		ev := <-lis // (a missing notification is reported as a hang)
+		verif_Assert(ev.Err != nil && ev.Cid == chain[0] && ev.PeerID == v.peer.ID, "each failed announce-triggered sync is notified, with its error")
+	}
+	verif_Reach("failures notified")
+	v.sy.failSync, v.sy.failAt, v.sy.syncs = 0, 0, 0
+	verif_Assume(rcv.Direct(context.Background(), chain[0], peer.AddrInfo{ID: v.peer.ID}) == nil)
+	amsg, nerr := rcv.Next(context.Background())
+	verif_Assert(nerr == nil && amsg.Cid == chain[0], "after the failures the head can be announced again")
+	hnd.pendingMsg.Store(&amsg)
+	hnd.asyncSyncAdChain(context.Background())
+	ev := <-lis
+	verif_Reach("success notified")
+	verif_Assert(ev.Err == nil && ev.Cid == chain[0] && ev.Count == n, "once the publisher answers correctly the sync of the same head succeeds and is notified")
+	verif_Assert(v.latest() == chain[0], "and recorded")
 }
